@@ -239,10 +239,66 @@ fn recover<K: TestKey>(args: &Args) -> i32 {
     0
 }
 
+fn mono_ns() -> u64 {
+    let mut ts = libc::timespec { tv_sec: 0, tv_nsec: 0 };
+    unsafe { libc::clock_gettime(libc::CLOCK_MONOTONIC, &mut ts) };
+    ts.tv_sec as u64 * 1_000_000_000 + ts.tv_nsec as u64
+}
+
+/// `driver hold`: one contender of an ownership race. Tries to open once (after spinning until
+/// `--start-at`), records the outcome in the ledger, holds the handle for a while if it won.
+fn hold(args: &Args) -> i32 {
+    let root = std::path::PathBuf::from(args.get("root").expect("--root"));
+    let mut ledger = AckLog::open(args.get("ledger").expect("--ledger"));
+    let id = args.str("id", "0");
+    let n_ops = args.u64("n-ops", 3);
+    let start_at = args.u64("start-at", 0);
+    let hold_ms = args.u64("hold-ms", 3);
+    while mono_ns() < start_at {
+        std::hint::spin_loop();
+    }
+    let cfg = config(n_ops, true, false, !args.has("no-scan"), false);
+    match cassadilia::Cas::<Vec<u8>>::open(&root, cfg) {
+        Ok(cas) => {
+            ledger.line(format!("acquired {id} {}", mono_ns()));
+            if args.has("populate") {
+                for i in 0..3u8 {
+                    if let Ok(mut tx) = cas.put(vec![i]) {
+                        let _ = tx.write(&[i; 20]);
+                        let _ = tx.finish();
+                    }
+                }
+            }
+            let release_file = format!("{}.release", args.get("ledger").unwrap());
+            let t0 = std::time::Instant::now();
+            while t0.elapsed().as_millis() < u128::from(hold_ms) {
+                if std::path::Path::new(&release_file).exists() {
+                    break;
+                }
+                std::thread::sleep(std::time::Duration::from_micros(200));
+            }
+            ledger.line(format!("releasing {id} {}", mono_ns()));
+            drop(cas);
+            0
+        }
+        Err(cassadilia::LibError::AlreadyOpened) => {
+            ledger.line(format!("lost {id} {}", mono_ns()));
+            0
+        }
+        Err(e) => {
+            ledger.line(format!("error {id} {} {}", mono_ns(), err_chain(&e).replace('\n', " ")));
+            0
+        }
+    }
+}
+
 fn main() {
     let args = Args::from_env();
     let cmd = args.positional(0).unwrap_or("").to_string();
     let kt = args.str("ktype", "bytes");
+    if cmd == "hold" {
+        std::process::exit(hold(&args));
+    }
     let code = match (cmd.as_str(), kt.as_str()) {
         ("run", "string") => run::<String>(&args),
         ("run", _) => run::<Vec<u8>>(&args),
